@@ -2,6 +2,7 @@ package props
 
 import (
 	"fmt"
+	"math"
 	"regexp"
 	"sort"
 	"strconv"
@@ -183,6 +184,7 @@ type c16Obs struct {
 	ev     c16Event
 	canvas int
 	clips  int // clips active on that canvas (within the open save/restore frames)
+	xforms int // translate(3px, 2px) transforms (the one every transformed box of a scene declares) active on that canvas
 }
 
 type c16Lists struct{ neg, zero, pos []*c16Node }
@@ -336,6 +338,7 @@ func c16ObservedFull(r *wr.Rendered) []c16Obs {
 	type state struct {
 		fill, stroke [3]float32
 		clips        int
+		xforms       int
 	}
 	stacks := map[int][]state{}
 	var out []c16Obs
@@ -358,12 +361,12 @@ func c16ObservedFull(r *wr.Rendered) []c16Obs {
 		}
 		return c16Event{}, false
 	}
-	var curCanvas, curClips int
+	var curCanvas, curClips, curXforms int
 	add := func(e c16Event) {
 		if len(out) > 0 && out[len(out)-1].ev == e {
 			return
 		}
-		out = append(out, c16Obs{e, curCanvas, curClips})
+		out = append(out, c16Obs{e, curCanvas, curClips, curXforms})
 	}
 	for _, e := range r.Rec.Events {
 		st := stacks[e.Canvas]
@@ -371,8 +374,12 @@ func c16ObservedFull(r *wr.Rendered) []c16Obs {
 			st = []state{{}}
 		}
 		top := &st[len(st)-1]
-		curCanvas, curClips = e.Canvas, top.clips
+		curCanvas, curClips, curXforms = e.Canvas, top.clips, top.xforms
 		switch e.Op {
+		case "Transform":
+			if len(e.F) == 6 && e.F[0] == 1 && e.F[1] == 0 && e.F[2] == 0 && e.F[3] == 1 && math.Abs(float64(e.F[4])-3) < 1e-3 && math.Abs(float64(e.F[5])-2) < 1e-3 {
+				top.xforms++
+			}
 		case "Clip":
 			top.clips++
 		case "Push":
@@ -648,6 +655,28 @@ func c16Check(ci interface{}) Verdict {
 					return v
 				}
 			}
+		}
+	}
+	// a transform applies to the whole sub-tree of the box that declares it: every paint of that sub-tree is
+	// issued with the transform of the box active (inside the opacity group of the box, when it has one)
+	for _, o := range obs {
+		m := byID[o.ev.box]
+		if m == nil {
+			continue
+		}
+		want := 0
+		for k := m; k != nil; k = k.parent {
+			if k.b.Transform {
+				want++
+			}
+			if k.b.Opacity {
+				break // a group starts a canvas of its own
+			}
+		}
+		if o.xforms != want {
+			v := Viol("transform:sub-tree", "%d.%s is painted with %d of the %d transforms declared by it and its ancestors (up to the enclosing opacity group) active\n%s", o.ev.box, o.ev.layer, o.xforms, want, html)
+			v.Labels = ls
+			return v
 		}
 	}
 	return Verdict{NonTrivial: nz >= 2 || labels["float"], Labels: ls}
